@@ -50,6 +50,9 @@ type xfWant struct {
 	FailAt int64
 	SrcErr bool // error must be the source's own error
 	Nil    bool // no error at all (no failing offset reached)
+	// SrvEOF: the server itself answered the READ at FailAt with the status SSH_FX_EOF: that is where the file ends as
+	// far as this transfer can know (EOF / Nil say what the call returns then)
+	SrvEOF bool
 }
 
 func (w xfWant) errText() string {
@@ -68,6 +71,8 @@ func (w xfWant) errText() string {
 
 func xfErrIs(err error, f xfFail) bool {
 	switch f.Code {
+	case wire.EOF: // (a WRITE answered with the status SSH_FX_EOF: the package's error for that code is io.EOF)
+		return err == io.EOF
 	case wire.PermissionDenied:
 		return err == os.ErrPermission
 	case wire.NoSuchFile:
@@ -104,7 +109,10 @@ func xfC13Want(cs xfCase) xfWant {
 			got := 0
 			for got < c.Len {
 				ro := c.Off + int64(got)
-				if _, bad := F[ro]; bad {
+				if f, bad := F[ro]; bad {
+					if f.Code == wire.EOF {
+						return xfWant{N: total, EOF: true, SrvEOF: true, FailAt: ro}
+					}
 					return fail(ro, total)
 				}
 				if ro >= S {
@@ -132,7 +140,10 @@ func xfC13Want(cs xfCase) xfWant {
 			got := int64(0)
 			for got < int64(mp) {
 				ro := cur + got
-				if _, bad := F[ro]; bad {
+				if f, bad := F[ro]; bad {
+					if f.Code == wire.EOF {
+						return xfWant{N: ro - o, Nil: true, SrvEOF: true, FailAt: ro}
+					}
 					return fail(ro, ro-o)
 				}
 				if ro >= S {
@@ -202,8 +213,8 @@ func xfC13Check(cs xfCase, out xfOutcome, fail xfFailer) (f6 bool) {
 		}
 	}
 	// io.EOF only at the true end of file
-	if out.Err == io.EOF && cs.IsRead() {
-		if end := o + out.N; !(end == int64(S) || (o >= int64(S) && out.N == 0)) {
+	if out.Err == io.EOF && cs.IsRead() && !(w.Fail != nil && w.FailAt < 0 && w.Fail.Code == wire.EOF) { // (a size query answered SSH_FX_EOF: that status is the call's error)
+		if end := o + out.N; !(end == int64(S) || (o >= int64(S) && out.N == 0) || (w.SrvEOF && end == w.FailAt)) {
 			fail("eof-not-at-end", "io.EOF reported although offset+n is not the end of the file", fmt.Sprintf("off+n == %d", S), fmt.Sprintf("off+n == %d", end))
 		}
 	}
@@ -223,6 +234,9 @@ func xfC13Check(cs xfCase, out xfOutcome, fail xfFailer) (f6 bool) {
 		full := int64(L)
 		if cs.API == "WriteTo" {
 			full = int64(len(xfSlice(initial, o, S)))
+			if w.SrvEOF {
+				full = w.N // the server said: the file ends here
+			}
 		}
 		if out.N < full && out.Err == nil {
 			fail("short-count-nil-error", "a short count came with a nil error", "error", got)
@@ -296,7 +310,7 @@ func xfC13Check(cs xfCase, out xfOutcome, fail xfFailer) (f6 bool) {
 	if cs.StatFail == nil && cs.SrcFailAfter == 0 {
 		e := xfExpectWire(cs)
 		limit := int64(1) << 62
-		if w.Fail != nil {
+		if w.Fail != nil || w.SrvEOF {
 			limit = w.FailAt
 		}
 		var req []xfChunk
@@ -329,17 +343,26 @@ func xfC13Check(cs xfCase, out xfOutcome, fail xfFailer) (f6 bool) {
 }
 
 // xfFailCodes rotate so that the status-to-error mapping of every interesting code is exercised.
-var xfFailCodes = []uint32{wire.Failure, wire.PermissionDenied, wire.Failure, wire.OpUnsupported, wire.Failure, wire.BadMessage, wire.NoSuchFile, wire.ConnectionLost}
+// All codes of the protocol that say "not OK" (1..8) and codes it does not define (9, 255, 2^32-1); FAILURE is the most
+// frequent. SSH_FX_EOF is one of them: as the answer to a READ it is the server's way of saying where the file ends, as
+// the answer to a WRITE it is a failure like any other.
+var xfFailCodes = []uint32{wire.Failure, wire.PermissionDenied, wire.EOF, wire.OpUnsupported, wire.Failure, wire.BadMessage, wire.NoSuchFile, wire.ConnectionLost,
+	wire.NoConnection, 9, wire.EOF, 255, 4294967295}
+
+// xfHasEOFCode: some request of the case is answered with the status SSH_FX_EOF.
+func xfHasEOFCode(cs xfCase) bool {
+	for _, f := range cs.Fail {
+		if f.Code == wire.EOF {
+			return true
+		}
+	}
+	return cs.StatFail != nil && cs.StatFail.Code == wire.EOF
+}
 
 func xfMkFail(offs []int64, k int) map[string]xfFail {
 	m := map[string]xfFail{}
 	for i, o := range offs {
-		code := uint32(wire.Failure)
-		if i == 0 {
-			code = xfFailCodes[k%len(xfFailCodes)]
-		} else if (k+i)%5 == 0 {
-			code = wire.OpUnsupported
-		}
+		code := xfFailCodes[(k+5*i)%len(xfFailCodes)] // (every element its own code: which one decides depends on the offsets)
 		m[fmt.Sprint(o)] = xfFail{Code: code, Msg: fmt.Sprintf("fail@%d", o)}
 	}
 	return m
@@ -349,7 +372,7 @@ func checkC13(c *lib.Ctx) {
 	r := c.R
 	res := &xfRes{r: r}
 	thorough := c.Tier == "thorough"
-	r.Rule = "scripted peer serving the file itself; for every client option set (quick: every (mp,conc) pair twice with rotating booleans; thorough: full product) x API {ReadAt, Read, WriteTo, WriteAt, Write, ReadFrom(Len/Size/Stat/LimitedReader/opaque), ReadFromWithConcurrency(0,1,3)} x chunk counts {1,2,3,conc+2,... and one of 5..8 for 1-3 workers (thorough: 1..8): failing indices >= MaxConcurrentRequestsPerFile reach a worker that has already served a successful chunk} x start offset rotating through {0, 1, mp+1, 2mp, len+1, 3len+mp+7, 4099} (the count must lie in [0, len] of the call's own buffer) x tail {aligned, 1, mp-1} x read geometry {ends at EOF, file longer, crosses EOF}: fail EVERY chunk index in turn (status codes 4,3,8,5,2,7 rotating, one message per offset) and PRNG index sets of 2-4 chunks, each in order and with held requests answered in a PRNG permutation (window up to workers+1); plus a failing size query for WriteTo, a failing source for ReadFrom, short DATA replies with a failing refill request on the sequential read paths; non-trivial = more than one chunk; distinct by (options, api, sizes, failing set, window)"
+	r.Rule = "scripted peer serving the file itself; for every client option set (quick: every (mp,conc) pair twice with rotating booleans; thorough: full product) x API {ReadAt, Read, WriteTo, WriteAt, Write, ReadFrom(Len/Size/Stat/LimitedReader/opaque), ReadFromWithConcurrency(0,1,3)} x chunk counts {1,2,3,conc+2,... and one of 5..8 for 1-3 workers (thorough: 1..8): failing indices >= MaxConcurrentRequestsPerFile reach a worker that has already served a successful chunk} x start offset rotating through {0, 1, mp+1, 2mp, len+1, 3len+mp+7, 4099} (the count must lie in [0, len] of the call's own buffer) x tail {aligned, 1, mp-1} x read geometry {ends at EOF, file longer, crosses EOF}: fail EVERY chunk index in turn (status codes rotating through ALL codes that are not OK: 4,3,1(SSH_FX_EOF),8,5,2,7,6 and the undefined 9,255,2^32-1, one message per offset; SSH_FX_EOF as the answer to a READ is the server's end of file: the read returns (prefix, io.EOF), WriteTo (prefix, nil); as the answer to a WRITE it is a failure whose error is io.EOF) and PRNG index sets of 2-4 chunks (every element its own code), each in order and with held requests answered in a PRNG permutation (window up to workers+1); plus a failing size query for WriteTo, a failing source for ReadFrom, short DATA replies with a failing refill request on the sequential read paths; plus, on every concurrent path, PAIRS of events of different kinds in one transfer of 3-5 chunks: chunk i {short DATA because the file ends inside it, SSH_FX_EOF because it ends at its start (ReadAt/Read), failure code a} and chunk j > i {failure code b != a} for the chunk pairs (0,1),(n-2,n-1),(0,n-1),(mid,mid+1) (thorough: all pairs, 3 rotations), each answered in BOTH orders by the peer (reply_order: a request is held until the ones listed before it are answered, 250 us pause after each; the histogram pair|... says how often the stated order was achieved); non-trivial = more than one chunk; distinct by (options, api, sizes, failing set, window, reply order)"
 	model := xfProbeModel(c)
 	xfProbeDefects(&model)
 	if model.Seq {
@@ -424,6 +447,12 @@ func checkC13(c *lib.Ctx) {
 		if cs.ShortCap > 0 {
 			res.Hist("peer=short-data-replies|path=" + path)
 		}
+		if h := xfPairHist(cs, out.Ordered); h != "" {
+			res.Hist(h)
+		}
+		for _, f := range cs.Fail {
+			res.Hist(fmt.Sprintf("status-code=%d|api=%s|path=%s", f.Code, cs.API, path))
+		}
 		if w.Fail != nil && w.FailAt >= cs.Off && path == "concurrent" {
 			idx, workers := int((w.FailAt-cs.Off)/int64(cs.Cfg.MP)), cs.EffConc()
 			nch := (cs.Len + cs.Cfg.MP - 1) / cs.Cfg.MP
@@ -467,7 +496,13 @@ func checkC13(c *lib.Ctx) {
 			res.Hist("known=F6-observed")
 		}
 		if out.SetupErr == nil && !out.Hang && out.Panic == nil && cs.SrcFailAfter == 0 && cs.ShortCap == 0 {
-			mc.addCase(model, cs, out, 32768)
+			if xfHasEOFCode(cs) {
+				// the model's server failures are `srv <code>` for every code: it does not know that the package reads the
+				// code SSH_FX_EOF as io.EOF (end of file for a READ). Judged by the direct oracle only.
+				res.Hist("model=not-compared|a request is answered with the status SSH_FX_EOF")
+			} else {
+				mc.addCase(model, cs, out, 32768)
+			}
 		}
 	}
 
@@ -563,7 +598,13 @@ func checkC13(c *lib.Ctx) {
 		}
 		sort.Ints(tl)
 		k := job.Idx
-		for _, v := range variants {
+		for vi, v := range variants {
+			// two events of different kinds in one transfer, answered in both orders (c13_pairs.go)
+			for rep := 0; rep < map[bool]int{false: 1, true: 3}[thorough]; rep++ {
+				for _, cs := range xfC13PairCases(rng, cfg, v, job.Idx*7+vi*3+rot+rep*5, thorough) {
+					runCase(cs, hold)
+				}
+			}
 			for _, nch := range counts {
 				for _, tail := range tl {
 					if !thorough && mp > 1000 && tail == 1 {
@@ -653,7 +694,7 @@ func checkC13(c *lib.Ctx) {
 						runCase(cs, hold)
 						if cs.Path() == "concurrent" {
 							cp := cs
-							cp.PermSeed = rng.Int63()
+							cp.PermSeed = rng.Int63() >> 11 // (below 2^53: survives a JSON round trip through float64)
 							cp.Window = xfPickWindow(rng, cp)
 							runCase(cp, hold)
 						}
